@@ -2,6 +2,7 @@ package symgo
 
 import (
 	"fmt"
+	"strings"
 
 	"golang.org/x/tools/go/ssa"
 )
@@ -257,6 +258,15 @@ func (p *Path) reportPanic(tp targetPanic) {
 	msg := tp.msg
 	if msg == "" {
 		msg = p.w.panicText(tp.v)
+	}
+	if tp.runtime {
+		// a runtime panic inside the implementation of package sync / sync/atomic / runtime internals is a gap of the
+		// engine's model of those packages (they are interpreted from source, with unsafe tricks), not a finding
+		for _, pre := range []string{"(*sync.", "sync.", "(*sync/atomic.", "sync/atomic.", "internal/", "(*internal/", "runtime."} {
+			if strings.HasPrefix(site, pre) {
+				p.unsupported("runtime panic inside %s (%s): not modelled", site, msg)
+			}
+		}
 	}
 	p.w.solver.Push()
 	p.recordViolation(fmt.Sprintf("panic@%s:%s", site, kind), "panic: "+msg, append([]string{}, p.stack...))
